@@ -352,14 +352,20 @@ func forkAndExecInChild(r *Runner, argv0 *byte, argv, env []*byte, workdir, host
 
 	// SetHostName
 	if hostname != nil {
-		syscall.RawSyscall(syscall.SYS_SETHOSTNAME,
+		_, _, err1 = syscall.RawSyscall(syscall.SYS_SETHOSTNAME,
 			uintptr(unsafe.Pointer(hostname)), uintptr(len(r.HostName)), 0)
+		if err1 != 0 {
+			childExitError(pipe, LocSetHostName, err1)
+		}
 	}
 
 	// SetDomainName
 	if domainname != nil {
-		syscall.RawSyscall(syscall.SYS_SETDOMAINNAME,
+		_, _, err1 = syscall.RawSyscall(syscall.SYS_SETDOMAINNAME,
 			uintptr(unsafe.Pointer(domainname)), uintptr(len(r.DomainName)), 0)
+		if err1 != 0 {
+			childExitError(pipe, LocSetDomainName, err1)
+		}
 	}
 
 	// chdir for child
